@@ -308,9 +308,14 @@ def goalRegionMoveStmts : String := "For Assign"
 def planningProblemMoves : List MoveRow :=
   [("self.initial_state", "translation, angle", "", "self.initial_state"), ("self.goal", "translation, angle", "", "")]
 def planningProblemMoveStmts : String := "Assign Expr"
-/-- the set moves every planning problem of its dictionary. -/
-def planningProblemSetMoves : List MoveRow := [("v0", "translation, angle", "self._planning_problem_dict.values()", "")]
-def planningProblemSetMoveStmts : String := "For Expr"
+/-- the set moves every planning problem of its dictionary; a problem whose goal-region OBJECT was already moved with an
+    earlier problem of the set (fix b7334b4: a shared goal region is moved once) has only its initial state moved. -/
+def planningProblemSetMoves : List MoveRow :=
+  [("v0.initial_state", "translation, angle",
+    "self._planning_problem_dict.values() | any((v0.goal is goal_region for goal_region in moved_goal_regions))", "v0.initial_state"),
+   ("v0", "translation, angle",
+    "self._planning_problem_dict.values() | any((v0.goal is goal_region for goal_region in moved_goal_regions))", "")]
+def planningProblemSetMoveStmts : String := "Assign For If Assign Expr Expr"
 
 /-- `PlanningProblem.goal_reached`: scan the per-state answers from the last to the first. -/
 def goalReachedRev : List (Nat × Res Bool) → Res (Bool × Int)
